@@ -1051,3 +1051,5 @@ def _run_timer(world: World, plan):
                          ['timer', sig, len(callbacks), plan.get('cb')])
 
 INFO['rule'] += ' Round-5 additions: the server session is aborted and the client logs in again by itself while requests are registered (relogin).'
+
+INFO['rule'] += ' Round-6 additions (timer shape): events inside one instant are ordered - a callback that starts after cancel() / reschedule() returned belongs to the deadline that was given up.'
